@@ -94,3 +94,34 @@ Print Assumptions C05_collapse_loaded.
 Print Assumptions C05_collapse_line_post_ok.
 Print Assumptions C05_collapse_post_ok_unrestricted_refuted.
 Print Assumptions C05_collapse_lines_le.
+
+(* ---- the concrete replace-properties model *)
+From Lithium Require Import Rewriters ReplaceProps ReplacePropsFrame.
+
+(* replace-properties-by-globals with its concrete pass (Model/ReplaceProps.v): every candidate is the
+   current best with some parts rewritten - before / after are never touched - so the strategy keeps any
+   frame; no monitoring assumption is needed for it any more *)
+Theorem C05_replace_properties :
+  forall cfg P S,
+    frame_preserving (replace_properties_concrete cfg) (fun _ _ => True) P S.
+Proof. exact replace_properties_is_frame_preserving. Qed.
+
+Theorem C05_replace_properties_loaded :
+  forall sp cfg verdict fuel d tc0 P r S,
+    splitter_ok sp -> load sp d = Ok tc0 -> find_markers d = Marked P r S ->
+    let w := result_world (run (replace_properties_concrete cfg) verdict fuel tc0 d) in
+    tests_in_frame P S (chron w) /\ in_frame P S (w_file w).
+Proof. exact replace_properties_loaded_keeps_frame. Qed.
+
+(* and it never changes the NUMBER of parts or the flags' length (the candidates are substitutions inside
+   parts; C04 excludes the rewriters because they do alter reducible bytes) *)
+Theorem C05_replace_properties_candidate_shape :
+  forall word starts best d t,
+    wf best -> candidate word starts best = (d, t) ->
+    wf t /\ tc_before t = tc_before best /\ tc_after t = tc_after best /\
+    length (tc_parts t) = length (tc_parts best).
+Proof. exact candidate_shape. Qed.
+
+Print Assumptions C05_replace_properties.
+Print Assumptions C05_replace_properties_loaded.
+Print Assumptions C05_replace_properties_candidate_shape.
